@@ -539,6 +539,22 @@ Proof.
   exact (Link_kernel_decides_program p b prev alloc dm pk wan km Hwf Hl Hk Hprobe Hbm Hdom).
 Qed.
 
+Theorem Link_kernel_real_decides_program_total :
+  forall (p : program) (b : builder) (prev : kmaps) (alloc : N) (dm : string -> list N) (pk : packet) (wan : bool),
+    wf_program p = true -> lower_program p = Ok b ->
+    (List.length (b_rules b) <= 1024)%nat ->
+    probe_ok pk wan = true ->
+    bitmap_ok (dm (p_domain pk)) = true ->
+    C01_domain_oracle_agrees p dm pk ->
+    let bm := if String.eqb (p_domain pk) "" then None else Some (dm (p_domain pk)) in
+    kernel_decides_real prev (b_rules b) (b_tries b) alloc (dom_entry bm) pk wan
+    = Ok (Some (dns_adjust (p_dport pk) (decide p pk))).
+Proof.
+  intros p b prev alloc dm pk wan Hwf Hl Hn Hprobe Hbm Hdom.
+  destruct (Link_install_total p b prev alloc Hwf Hl Hn) as [km Hk].
+  exact (Link_kernel_real_decides_program_closed p b prev alloc dm pk wan km Hwf Hl Hk Hprobe Hbm Hdom).
+Qed.
+
 (* ------------------------------------------------------------------------------------------------ *)
 (* Part 5: findings about the interface of the two models, with witnesses                             *)
 (* ------------------------------------------------------------------------------------------------ *)
@@ -645,6 +661,39 @@ Print Assumptions Link_kernel_real_decides_program_closed.
 Print Assumptions Link_install_total.
 Print Assumptions Link_install_fails_iff_too_large.
 Print Assumptions Link_kernel_decides_program_total.
+Print Assumptions Link_kernel_real_decides_program_total.
 Print Assumptions Link_install_needs_size_bound.
 Print Assumptions Link_mark_bound_is_needed.
 Print Assumptions Link_C01_C02_nonvacuous.
+
+(* WHAT IS DISCHARGED / WHAT REMAINS
+   Discharged: both INPUT side conditions of C02's theorems, for the arrays C01's builder emits from a well-formed
+     program:
+       - forallb (wf_mset (length (b_tries b))) (b_rules b)  = Link_lowered_msets_in_range (new: the invariant `rng`
+         through patch_rule_outbound / patch_fallback, parse_outbound (mark < 2^32 from outbound_ok), outbound_to_id
+         (ids < 256: groups_ok gives < 0xFC, the logical ids are 252/254/255), canonicalize + the LPM dedup table
+         (C01_Proofs.inv: a dedup hit names an existing trie; b_tries only grows), add_ipset, add_mac, add_domain,
+         add_mask (or_all of the codes 1/2 <= 3), add_ports (value_ok: < 65536), add_pnames (to_process_name: 16 bytes
+         < 256), add_dscps (< 256), parse_and_add, apply_groups (passes po_mark through), apply_funcs, apply_rules,
+         add_fallback);
+       - forallb (forallb wf_prefix) (b_tries b) = Link_lowered_tries_wf_prefix (Link_C01_C12.Link_lowered_tries_ok +
+         Link_C02_C12.tries_ok_wf_prefix).
+     Hence the named hypothesis `lowered_msets_in_range b` of Link_C02_C12.Link_kernel_real_decides_program is gone
+     (Link_kernel_real_decides_program_closed), and C02_kscan_scan composes with C01_scan_lower
+     (Link_kernel_decides_program).  `install ... = Ok km` is characterised: for the generation of a well-formed
+     program it holds iff there are at most 1024 match-sets (Link_install_total, Link_install_fails_iff_too_large; the
+     trie limit follows from Link_lowered_tries_le_rules), giving the `_total` variants without that hypothesis.
+   No range mismatch: every range wf_mset asks follows from wf_program; none had to be kept as a hypothesis.
+   Findings: (1) size — wf_program does not bound the number of match-sets, install does (witness big_program, 1026
+     match-sets: Link_install_needs_size_bound); (2) the mark bound of outbound_ok is exactly the one the kernel
+     encoding needs and cannot be dropped (Link_mark_bound_is_needed).
+   Remaining hypotheses of Link_kernel_decides_program / Link_kernel_real_decides_program_closed:
+     wf_program p, lower_program p = Ok b (always some b: C01_lower_total), install ... = Ok km (or, in the _total
+     variants, length (b_rules b) <= 1024), probe_ok pk wan (wf_packet + a LAN probe carries no process name: C02's
+     quantifier, necessary by C02_kscan_scan_unrestricted_refuted), bitmap_ok (dm (p_domain pk)) (the domain matcher
+     returns 32 words of 32 bits: interface to C11), C01_domain_oracle_agrees p dm pk (interface to C11), and, inside
+     the statement, that the domain_routing_map entry of the destination is dom_entry of that bitmap (interface to C10).
+   Used as stated: C01_Props.C01_scan_lower, C02_Props.C02_kscan_scan, C02_install_total,
+     Link_C02_C12.Link_kernel_real_decides_program, Link_C01_C12.Link_lowered_tries_ok.  From Proofs files (helper
+     lemmas): C01_Proofs.inv, inv_empty, new_trie_facts, lookup_groups_ok, or_all_code, group_by_key_ok;
+     C02_ProofsScan.install_facts. *)
